@@ -475,3 +475,9 @@ Definition S12frob (j : Z) (x : T12) : T12 :=
   canon12 ((f 0 (fst (c0 x)), f 3 (snd (c0 x))),
            (f 1 (fst (c1 x)), f 4 (snd (c1 x))),
            (f 2 (fst (c2 x)), f 5 (snd (c2 x)))).
+
+(* ------------------------------------------------------------------ predicates (bitwise, as sm9_z256_equ / _is_zero) *)
+Definition I2equ (a b : T2) : bool := (fst a =? fst b) && (snd a =? snd b).
+Definition I2is_one (a : T2) : bool := (fst a =? 1) && (snd a =? 0).
+Definition I4equ (a b : T4) : bool := I2equ (fst a) (fst b) && I2equ (snd a) (snd b).
+Definition I12equ (a b : T12) : bool := I4equ (c0 a) (c0 b) && I4equ (c1 a) (c1 b) && I4equ (c2 a) (c2 b).
